@@ -1678,6 +1678,7 @@ def inverse_consistency_loss(
                 f"inverse_consistency_loss() 'mask' batch size must be 1 or {error.shape[0]}"
             )
         error[move_dim(mask == 0, 1, -1).expand_as(error)] = 0
+        mask = mask.squeeze(1) != 0
     # Discard error at grid boundary
     if margin > 0:
         if isinstance(margin, float):
@@ -1690,6 +1691,8 @@ def inverse_consistency_loss(
             m = [max(0, int(margin))] * grid.ndim
         subgrid = tuple(reversed([slice(i, n - i) for i, n in zip(m, grid.size())]))
         error = error[(slice(0, error.shape[0]),) + subgrid + (slice(0, grid.ndim),)]
+        if mask is not None:
+            mask = mask[(slice(0, mask.shape[0]),) + subgrid]
     # Scale differences by respective error units
     if units in ("voxel", "world"):
         error = denormalize_flow(
@@ -1700,12 +1703,17 @@ def inverse_consistency_loss(
     # Calculate error norm
     error: Tensor = error.norm(p=2, dim=-1)
     # Reduce error if requested
-    if reduction != "none":
-        count = error.numel()
+    if reduction == "sum":
         error = error.sum()
-        if reduction == "mean" and mask is not None:
-            count = (mask != 0).sum()
-        error /= count
+    elif reduction == "mean":
+        if mask is None:
+            error = error.mean()
+        else:
+            # Number of foreground points within considered region of all transformations in batch
+            count = mask.expand_as(error).sum()
+            error = error.sum().div(count)
+    elif reduction != "none":
+        raise ValueError("inverse_consistency_loss() 'reduction' must be 'mean', 'sum' or 'none'")
     return error
 
 
